@@ -2,6 +2,7 @@
 
 use serde_json::{json, Value};
 use sha2::{Digest, Sha512};
+use std::cell::Cell;
 use std::collections::BTreeMap;
 use std::io::Write;
 use std::panic::{catch_unwind, AssertUnwindSafe};
@@ -98,6 +99,7 @@ impl Ctx {
     /// Register one driven case by a key that identifies it; `distinct_nontrivial` counts the
     /// distinct keys.
     pub fn case(&self, key: &str) {
+        set_current_case(key);
         let mut h = Sha512::new();
         h.update(key.as_bytes());
         let d = h.finalize();
@@ -234,11 +236,71 @@ pub fn install_panic_hook() {
     }));
 }
 
+// ---- watchdog bookkeeping: which thread has been inside a call into the code under test since when
+pub const SLOTS: usize = 256;
+#[allow(clippy::declare_interior_mutable_const)]
+const ZERO: std::sync::atomic::AtomicU64 = std::sync::atomic::AtomicU64::new(0);
+/// milliseconds since `epoch()` at which the outermost guarded call of the thread in this slot started (0 = none)
+pub static STARTED_MS: [std::sync::atomic::AtomicU64; SLOTS] = [ZERO; SLOTS];
+static NEXT_SLOT: std::sync::atomic::AtomicUsize = std::sync::atomic::AtomicUsize::new(0);
+/// longest single (outermost) call into the code under test seen in this run, in ms (reported in the evidence bounds)
+pub static LONGEST_CALL_MS: std::sync::atomic::AtomicU64 = std::sync::atomic::AtomicU64::new(0);
+pub fn epoch() -> std::time::Instant {
+    static E: std::sync::OnceLock<std::time::Instant> = std::sync::OnceLock::new();
+    *E.get_or_init(std::time::Instant::now)
+}
+pub fn slot_labels() -> &'static Vec<Mutex<String>> {
+    static L: std::sync::OnceLock<Vec<Mutex<String>>> = std::sync::OnceLock::new();
+    L.get_or_init(|| (0..SLOTS).map(|_| Mutex::new(String::new())).collect())
+}
+thread_local! {
+    static SLOT: usize = NEXT_SLOT.fetch_add(1, Ordering::Relaxed) % SLOTS;
+    static GUARD_DEPTH: Cell<u32> = const { Cell::new(0) };
+}
+/// Remember the case the current thread is working on (shown by the watchdog if a call does not return).
+pub fn set_current_case(label: &str) {
+    SLOT.with(|s| {
+        if let Ok(mut g) = slot_labels()[*s].lock() {
+            g.clear();
+            g.push_str(if label.len() > 600 { &label[..600] } else { label });
+        }
+    });
+}
+
+/// The top-level wrapper of a whole exploration: like `guarded`, but not timed by the watchdog.
+pub fn guarded_unwatched<T>(f: impl FnOnce() -> T) -> Result<T, String> {
+    guarded_impl(f, false)
+}
+
 /// Run the subject; a panic becomes `Err(message @ location)`.
 pub fn guarded<T>(f: impl FnOnce() -> T) -> Result<T, String> {
-    QUIET.with(|q| q.set(true));
+    guarded_impl(f, true)
+}
+
+fn guarded_impl<T>(f: impl FnOnce() -> T, watch: bool) -> Result<T, String> {
+    // the outermost watched call of a thread is what the watchdog times
+    let depth = GUARD_DEPTH.with(|d| d.get());
+    let timed = watch && depth == 0;
+    if watch {
+        GUARD_DEPTH.with(|d| d.set(depth + 1));
+    }
+    if timed {
+        let ms = epoch().elapsed().as_millis() as u64 + 1;
+        SLOT.with(|s| STARTED_MS[*s].store(ms, Ordering::Relaxed));
+    }
+    let was_quiet = QUIET.with(|q| q.replace(true));
     let r = catch_unwind(AssertUnwindSafe(f));
-    QUIET.with(|q| q.set(false));
+    QUIET.with(|q| q.set(was_quiet));
+    if watch {
+        GUARD_DEPTH.with(|d| d.set(depth));
+    }
+    if timed {
+        SLOT.with(|s| {
+            let st = STARTED_MS[*s].swap(0, Ordering::Relaxed);
+            let took = (epoch().elapsed().as_millis() as u64 + 1).saturating_sub(st);
+            LONGEST_CALL_MS.fetch_max(took, Ordering::Relaxed);
+        });
+    }
     match r {
         Ok(v) => Ok(v),
         Err(_) => Err(LAST_PANIC
